@@ -44,7 +44,8 @@ pub fn within_2_50(x: f64, got: f64) -> bool {
         return false;
     }
     let diff = (got - x).abs();
-    if x.abs() < f64::MIN_POSITIVE * 4.0 {
+    if x.abs() < f64::MIN_POSITIVE {
+        // subnormal: a relative bound is unattainable, one subnormal ulp is
         return diff <= f64::from_bits(1);
     }
     diff <= x.abs() * (2.0f64).powi(-50)
